@@ -160,15 +160,19 @@ static bool gen_c17_inject(Rng &r, Plan &p) {
   if (r.chance(0.3)) hdr += "Subject: s\n";
   hdr += "\nbody line\n";
   p.knobs.set("stdin", hdr);
-  Json args = Json::arr(); int mode = (int)r.below(8); std::vector<std::string> argr = {"arg1@x.example", "arg2"};
+  // recipients and sender given as arguments are quoted into a header field by qmail-inject and parsed back: hostile local parts
+  auto hostile_box = [&]() -> std::string { std::string b; do { b = c17_local(r, r.next(), false); } while (b.empty()); return b; };
+  Json args = Json::arr(); int mode = (int)r.below(8); std::string a1 = (r.chance(0.7) ? hostile_box() : std::string("arg1")) + "@x.example";
+  std::vector<std::string> argr = {a1, "arg2"};
   std::vector<std::string> want = expect;
-  if (mode == 0) { args.push("-a"); for (auto &a : argr) args.push(a); want = {"arg1@x.example", rewrite("arg2", "", false)}; }
-  else if (mode == 1) { args.push("-h"); for (auto &a : argr) args.push(a); }
-  else if (mode == 2) { args.push("-H"); for (auto &a : argr) args.push(a); want.push_back("arg1@x.example"); want.push_back(rewrite("arg2", "", false)); }
-  else if (mode == 3) { for (auto &a : argr) args.push(a); want = {"arg1@x.example", rewrite("arg2", "", false)}; }
-  else if (mode == 4) { args.push("-fenv@sender.example"); }
+  if (mode == 0) { args.push("-a"); args.push("--"); for (auto &a : argr) args.push(a); want = {a1, rewrite("arg2", "", false)}; }
+  else if (mode == 1) { args.push("-h"); args.push("--"); for (auto &a : argr) args.push(a); }
+  else if (mode == 2) { args.push("-H"); args.push("--"); for (auto &a : argr) args.push(a); want.push_back(a1); want.push_back(rewrite("arg2", "", false)); }
+  else if (mode == 3) { args.push("--"); for (auto &a : argr) args.push(a); want = {a1, rewrite("arg2", "", false)}; }
+  std::string fsender = (r.chance(0.6) ? hostile_box() : std::string("env")) + "@sender.example";
+  if (mode == 4) { args.push("-f" + fsender); }
   p.knobs.set("args", args);
-  Json ex = Json::obj(); Json wr = Json::arr(); for (auto &w : want) wr.push(w); ex.set("rcpts", wr); if (mode == 4) ex.set("sender", "env@sender.example"); p.knobs.set("expect", ex);
+  Json ex = Json::obj(); Json wr = Json::arr(); for (auto &w : want) wr.push(w); ex.set("rcpts", wr); if (mode == 4) ex.set("sender", fsender); p.knobs.set("expect", ex);
   if (mode >= 4 && !has_bcc && r.chance(0.7)) p.knobs.set("reinject", true);  // Bcc is deleted from the stored header, so its addresses cannot come back
   (void)have_to; (void)dummy;
   p.label = "qmail-inject header with " + std::to_string(expect.size()) + " mailboxes, mode " + std::to_string(mode);
